@@ -10,6 +10,7 @@ def berespEv : Ev → String
   | .trailers t => "T:" ++ toHex t
   | .endStream => "E"
   | .rst => "R"
+  | .redispatch => "X"
 
 def berespBit (b : Bool) : String := if b then "1" else "0"
 
@@ -42,14 +43,22 @@ def berespLine : List String → String
                          head := meth = "H" }
       berespOut (relay cfg ss en)
     | _, _, _, _, _ => "bad-op"
-  | "dechunk" :: _mf :: _sc :: segs =>
+  | "dechunk" :: _mf :: sc :: segs =>
     match segs.mapM ofHex with
     | some ss =>
-      let st := ss.foldl dcFeed ({} : DcSt)
+      -- (send_chunked = 1: the raw pieces are passed through, a piece with a framing error is not)
+      let rec dgo (ss : List Bytes) (st : DcSt) (raw : Bytes) : DcSt × Bytes :=
+        match ss with
+        | [] => (st, raw)
+        | s :: rest =>
+          let st' := dcFeed st s
+          if st'.mode.isErr then (st', raw) else dgo rest st' (raw ++ s)
+      let (st, raw) := dgo ss {} []
+      let out := if sc = "1" then raw else st.out
       match st.mode with
-      | .err => "err out=" ++ toHex st.out
-      | .done acc => "ok out=" ++ toHex st.out ++ " te=0 t=" ++ toHex (dcTrailerFields acc) ++ " done=200 fin=1 ka=1"
-      | m => "ok out=" ++ toHex st.out ++ " te=" ++ toString (dcTe m) ++ " h=" ++ toHex (dcBuf m) ++
+      | .err => "err out=" ++ toHex out
+      | .done acc => "ok out=" ++ toHex out ++ " te=0 t=" ++ toHex (dcTrailerFields acc) ++ " done=200 fin=1 ka=1"
+      | m => "ok out=" ++ toHex out ++ " te=" ++ toString (dcTe m) ++ " h=" ++ toHex (dcBuf m) ++
              " done=0 fin=0 ka=1"
     | none => "bad-op"
   | "fcgi" :: segs =>
